@@ -328,7 +328,7 @@ def run(ctx):
         if ctx.tier == "thorough":
             sizes = list(range(0, 301)) + [rng.randrange(301, 70000) for _ in range(40)]
         else:
-            sizes = sorted({0, 1, 2, 3, 255, 256, 300} | {rng.randrange(0, 301) for _ in range(ctx.budget(26, 26))}) + \
+            sizes = sorted({0, 1, 2, 3, 255, 256, 300} | {rng.randrange(0, 301) for _ in range(ctx.budget(20, 20))}) + \
                 [rng.randrange(301, 70000) for _ in range(3)]
         for n in sizes:
             kind = "lit" if n <= 300 else "fake"
